@@ -42,6 +42,8 @@ class DerivedCoord(AbstractValue):
     def v_getattr(self, name, it):
         if name in ("one", "zero"):
             return lambda: DerivedCoord(name)
+        if name == "n":
+            return self
         raise AnalysisError(f"attribute {name} of a derived coordinate")
 
     def v_compare(self, op, other, it):
@@ -71,7 +73,8 @@ CoordOf.v_binop = coord_pow
 
 def coord_cmp(self, op, other, it):
     if op in ("==", "!="):
-        zero = (isinstance(other, int) and other == 0) or (isinstance(other, CoordConst) and other.which == "zero")
+        zero = (isinstance(other, int) and other == 0) or (isinstance(other, CoordConst) and other.which == "zero") or \
+            (isinstance(other, FieldVal) and (other.v == 0 or (isinstance(other.v, tuple) and not any(other.v))))
         if zero:
             t = Term("coord_is_zero", (self.pt.name if hasattr(self.pt, "name") else id(self.pt), self.idx), "bool")
             return t if op == "==" else Term("not", (t,), "bool")
@@ -79,6 +82,37 @@ def coord_cmp(self, op, other, it):
 
 
 CoordOf.v_compare = coord_cmp
+_coord_getattr0 = CoordOf.v_getattr
+
+
+def _coord_getattr(self, name, it):
+    if name == "n":
+        return self          # the integer residue of a prime-field coordinate: the coordinate itself (embedding into F_p^12)
+    return _coord_getattr0(self, name, it)
+
+
+CoordOf.v_getattr = _coord_getattr
+
+
+def embed_hook(it, cls, args, kwargs):
+    """FQ12([c, 0, …, 0]) with c a formal coordinate is the embedded coordinate"""
+    from .fieldmodel import field_kind
+    if field_kind(cls, it.repo) is None or kwargs or len(args) != 1 or not isinstance(args[0], (list, tuple)):
+        return NotImplemented
+    cs = list(args[0])
+    if cs and isinstance(cs[0], (CoordOf, DerivedCoord)) and all(isinstance(c, int) and c == 0 for c in cs[1:]):
+        return cs[0]
+    return NotImplemented
+
+
+def as_point(v):
+    """PSym, or a tuple of the formal coordinates (0, 1[, 2]) of one PSym"""
+    if isinstance(v, PSym):
+        return v
+    if isinstance(v, tuple) and len(v) in (2, 3) and all(isinstance(c, CoordOf) for c in v):
+        if len({id(c.pt) for c in v}) == 1 and [c.idx for c in v] == list(range(len(v))) and isinstance(v[0].pt, PSym):
+            return v[0].pt
+    return None
 
 
 class PSym(GroupSym):
@@ -324,6 +358,7 @@ def analyse_pairing_entry(world, repo, modname, optimized, Qv="sym", Pv="sym"):
     def s_ml(it, fr, args, kw, node):
         if args[0] is None or args[1] is None:
             return NotImplemented
+        args = [as_point(a) or a for a in args[:2]] + list(args[2:])
         it.emit("miller", args=args, kw=kw, facts=dict(it.facts), node=node)
         return FSym({("miller",): 1})
 
@@ -334,16 +369,13 @@ def analyse_pairing_entry(world, repo, modname, optimized, Qv="sym", Pv="sym"):
             return ("not-the-validated-point", args[0])
         return PSym(args[0].comb, True, args[0].name)
 
-    def s_cast(it, fr, args, kw, node):
-        if args[0] is None:
-            return NotImplemented
-        return args[0]
-    summ = {q("is_on_curve"): s_onc, ml.qualname: s_ml, q("twist"): s_twist, f"{modname}.cast_point_to_fq12": s_cast}
+    repo.func(f"{modname}.cast_point_to_fq12")          # walked, not summarised: its infinity handling is part of pairing()
+    summ = {q("is_on_curve"): s_onc, ml.qualname: s_ml, q("twist"): s_twist}
 
     def run(it):
         it.allow_derived_coords = True
         if optimized:
             return it.call_func(f, [Q, Pt], {"final_exponentiate": flag})
         return it.call_func(f, [Q, Pt], {})
-    paths = enumerate_paths(world, run, summaries=summ)
+    paths = enumerate_paths(world, run, summaries=summ, class_hooks=[embed_hook])
     return {"paths": paths, "f": f, "b": _hashable(b), "b2": _hashable(b2), "flag": flag, "miller": ml}
